@@ -37,7 +37,15 @@ MTokens == {<<"a">>, <<"b">>, <<"*">>, <<"?">>, <<"/">>, <<"\\">>, <<"\\", "a">>
             <<"[", "]", "a", "]">>, <<"[">>, <<"]">>, <<"-">>, <<"^">>, <<"[", "a", "b", "]">>, <<"[", "^", "a", "-", "b", "]">>}
 RECURSIVE MPats(_)
 MPats(k) == IF k = 0 THEN {<<>>} ELSE LET s == MPats(k - 1) IN s \cup {x \o t : x \in s, t \in MTokens}
-MNames == PStrs(MaxLen2, {"a", "b", "/", "\\", "-", "]", "_"})
+MNames == PStrs(IF MaxLen1 >= 5 THEN 3 ELSE 2, {"a", "b", "/", "\\", "-", "]", "_"})
+
+\* structured operands for the two-argument functions: up to three elements from {.., ., a, b}, absolute or not,
+\* so that bases and targets climbing several levels occur (as plain strings they would need length 5 and more)
+PElems == {<<".", ".">>, <<".">>, <<"a">>, <<"b">>}
+RECURSIVE PJoin(_)
+PJoin(es) == IF es = <<>> THEN <<>> ELSE IF Len(es) = 1 THEN es[1] ELSE es[1] \o <<"/">> \o PJoin(Tail(es))
+PSeqs == {<<e>> : e \in PElems} \cup {<<e, f>> : e \in PElems, f \in PElems} \cup {<<e, f, g>> : e \in PElems, f \in PElems, g \in PElems}
+RelOperands == {PJoin(es) : es \in PSeqs} \cup {<<"/">> \o PJoin(es) : es \in PSeqs} \cup {<<"/">>, <<>>}
 
 Two(a, b) ==
     [a |-> a, b |-> b, join |-> Join2("linux", a, b), rel |-> RelL(a, b).path, relerr |-> RelL(a, b).err,
@@ -48,6 +56,7 @@ Emit(rec) == IF EdgeFile = "" THEN TRUE ELSE CSVWrite("%1$s", <<ToJson(rec)>>, E
 
 Init == phase = "go" /\ cur \in ({[t |-> "one", s |-> s, b |-> <<>>] : s \in Strs(MaxLen1)}
                                  \cup {[t |-> "two", s |-> a, b |-> b] : a \in Strs(MaxLen2), b \in Strs(MaxLen2)}
+                                 \cup {[t |-> "two", s |-> a, b |-> b] : a \in RelOperands, b \in RelOperands}
                                  \cup {[t |-> "match", s |-> p, b |-> n] : p \in PStrs(MaxLen2 + 1, PatAlphabet), n \in PStrs(MaxLen2 + 1, {"a", "b", "/"})}
                                  \cup {[t |-> "match", s |-> p, b |-> n] : p \in MPats(2), n \in MNames})
 Next == /\ phase = "go" /\ phase' = "done" /\ cur' = cur
